@@ -28,7 +28,7 @@ RULE = ('one trash-put of 1-3 entries per case with names over all byte values 1
         '(set of special byte classes in the name, trash-dir kind, year class)')
 ASSUMPTIONS = ['names that are not valid UTF-8 are generated, but trash-put refuses them (see C16), so no .trashinfo exists to judge for them',
                'the name dimension is ordinary seeded input generation; the simulator adds clock, layout and real I/O']
-PROBES = ['infos-checked', 'relative-path-info', 'absolute-path-info', 'name-needs-escaping', 'newline-in-name', 'percent-in-name',
+PROBES = ['path-value-over-8k', 'infos-checked', 'relative-path-info', 'absolute-path-info', 'name-needs-escaping', 'newline-in-name', 'percent-in-name',
           'long-name', 'deep-path', 'year-below-1000', 'year-above-3000', 'invalid-utf8-refused', 'rm-exact-path-removed', 'restore-listed']
 TECHNIQUE = 'deterministic simulation with simulated clock; byte-level conformance + round trip of each written .trashinfo through an independent spec decoder and the three readers'
 LEVEL_TEXT = 'seeded exploration of names x depth x time x trash-dir kind; invariant on every .trashinfo written by the real trash-put'
@@ -78,12 +78,17 @@ def gen(rng):
             first = rng.choice(['Photos', 'archive', 'tmp', 'home', 'Path=x', '=eq', 'th', 'a', 'P', '%41', ' lead', '[Trash Info]',
                                 'DeletionDate=1', '..x', '-dash', 'é', '~', 't'])
             d = vol + '/' + first if rng.random() < 0.8 else vol
+        if rng.random() < 0.06:
+            # a deep path made of bytes that all need escaping: the Path value grows past 8 KiB
+            # while the path itself stays below PATH_MAX
+            for _k in range(rng.randint(9, 11)):
+                d = d + '/' + rng.choice(['é', 'ж', 'ü']) * 120 + str(_k)
         for _k in range(rng.choice([0, 0, 1, 2, 5])):
             comp = G.rand_name_bytes(rng, 30, allow_invalid=False) if rng.random() < 0.5 else rng.choice(['sub', 'a b', 'x%y', 'ü'])
             d = d + '/' + comp
         nm = G.rand_name_bytes(rng, 255 if rng.random() < 0.2 else 24, allow_invalid=rng.random() < 0.1) \
             if rng.random() < 0.7 else rng.choice(G.TROUBLE)
-        if len((d + '/' + nm).encode('utf-8', 'surrogateescape')) > 3000:
+        if len((d + '/' + nm).encode('utf-8', 'surrogateescape')) > 3900:
             continue
         if d != vol:
             steps.append(['d', d, 0o755])
@@ -153,6 +158,8 @@ def check(sim, case, st):
         cls = byte_classes(posixpath.basename(loc))
         ycls = 'y<1000' if lo and lo.year < 1000 else ('y>3000' if lo and lo.year > 3000 else 'y')
         st.probes['infos-checked'] += 1
+        if len(content) > 8192:
+            st.probes['path-value-over-8k'] += 1
         st.probes['relative-path-info' if rel else 'absolute-path-info'] += 1
         if cls:
             st.probes['name-needs-escaping'] += 1
